@@ -904,3 +904,36 @@ package yqlib
 //@     invariant @counter {C10} fileIndex == rangeidx() && fresh(allDocuments) && ExpressionParser != nil
 //@     invariant @nodes {C10} docNodes(allDocuments, len(allDocuments)) && forall(i, 0, len(allDocuments), allocated(nodeAt(allDocuments, i)) && nodeAt(allDocuments, i).fileIndex < fileIndex)
 //@     invariant @ordered {C10} docsInOrder(allDocuments, len(allDocuments))
+
+// ---------------------------------------------------------------------------------------------
+// operator_traverse_path.go: array indexing (C01)
+//
+// Reference semantics of .[i, j, ...] on an array of length n: index i >= 0 denotes element i, index i < 0
+// denotes element n+i, which exists iff n+i >= 0; anything else is an error. (Reading at or beyond n pads
+// the array: the auto-create side of the operator, see C08 F5.)
+
+//@ pred arrIdx(i, n) = ite(i >= 0, i, n + i)
+//@ pred idxText(indices, k) = indices[k].Value
+//@ pred allInRange(indices, n) = forall(k, 0, len(indices), intOk(idxText(indices, k)) && 0 - n <= intOf(idxText(indices, k)) && intOf(idxText(indices, k)) < n)
+
+//@ pred readsSoFar(node, indices, newMatches, n0, done) = len(node.Content) == n0 && len(newMatches) == done && forall(i, 0, n0, node.Content[i] == old(node.Content[i])) && forall(k, 0, done, isNode(listAt(newMatches, k)) && nodeAt(newMatches, k) == old(node.Content[arrIdx(intOf(idxText(indices, k)), n0)]))
+
+//@ func traverseArrayWithIndices
+//@   props C01 C11
+//@   let n0 = len(old(node.Content))
+//@   requires node != nil && forall(i, 0, len(indices), indices[i] != nil)
+//@   modifies node.Style, node.Content
+//@   ensures @splat {C01} implies(len(indices) == 0, result1 == nil && result0 != nil && len(result0) == n0 && forall(i, 0, n0, isNode(listAt(result0, i)) && nodeAt(result0, i) == old(node.Content[i])))
+//@   ensures @in-range-reads {C01} implies(len(indices) > 0 && allInRange(indices, n0), result1 == nil && result0 != nil && readsSoFar(node, indices, result0, n0, len(indices)))
+//@   ensures @error-only-when-undefined {C01} implies(result1 != nil, exists(k, 0, len(indices), !intOk(idxText(indices, k)) || intOf(idxText(indices, k)) < 0 - len(node.Content)))
+//@   ensures @not-a-number-is-an-error {C01} implies(!prefs.OptionalTraverse && exists(k, 0, len(indices), !intOk(idxText(indices, k))) && forall(k, 0, len(indices), !intOk(idxText(indices, k)) || 0 <= intOf(idxText(indices, k)) + len(node.Content)), result1 != nil)
+//@   loop 1:
+//@     invariant 0 <= index && index <= n0 && len(node.Content) == n0 && len(newMatches) == index && fresh(newMatches)
+//@     invariant forall(i, 0, index, isNode(listAt(newMatches, i)) && nodeAt(newMatches, i) == old(node.Content[i]))
+//@   loop 2:
+//@     invariant fresh(newMatches)
+//@     invariant @reads implies(allInRange(indices, n0), readsSoFar(node, indices, newMatches, n0, rangeidx()))
+//@     invariant @numbers-so-far implies(!prefs.OptionalTraverse, forall(k, 0, rangeidx(), intOk(idxText(indices, k))))
+//@   loop 3:
+//@     invariant contentLength == len(node.Content) && index == intOf(indexNode.Value) && indexToUse == index && fresh(newMatches)
+//@     invariant @reads implies(allInRange(indices, n0), contentLength == n0 && readsSoFar(node, indices, newMatches, n0, len(newMatches)))
